@@ -1,5 +1,5 @@
 //! unit: u07c
-//! properties: C07
+//! properties: C07 C05
 //! note: sweeping recovered outputs (util/transaction_utils.rs maybe_add_change_output, used by spend_spendable_outputs / OutputSweeper): the requested outputs are kept, the transaction pays at least the requested feerate at the weight it reports, and whatever exceeds that goes to the change script unless it is below that script's dust value
 //! trusted: env: bitcoin types are skeletons: Amount(u64) with bitcoin::Amount's checked `+=` and `-` (they panic on overflow/underflow: obligations), comparison by value, MAX_MONEY = 21e14 sat; ScriptBuf opaque with an uninterpreted minimal_non_dust() (at most MAX_MONEY: bitcoin computes it from the script length); TxOut / Transaction field skeletons; Transaction::weight() is an uninterpreted function of the transaction *before* the change output is added (the function reads it once, before pushing); VarInt(n).size() is bitcoin's compact-size length (1/3/5/9 bytes); R8: `change_output.consensus_encode(&mut sink()).unwrap()` -> encoded_len(&change_output) (the serialized length of a TxOut: 8 + compact size + script length, bounded by 10_009 for a standard script)
 //! trusted: R15 (deep slices): SpendableOutputDescriptor::create_spendable_outputs_psbt: the TxIn built in each of the three arms (static payment output with its `sequence` statement, delayed payment output, static output) verbatim as functions of the descriptor; OutPoint::into_bitcoin_outpoint is re-declared (txid, index widened to u32); the duplicate test, the witness weights, the input value sum (MAX_MONEY test) and the PSBT assembly are dropped and not claimed
@@ -7,6 +7,7 @@
 //! trusted: R15 (deep slice): ChannelMonitorImpl::get_spendable_outputs: the body of the loop over the outputs of a confirmed transaction, verbatim as a function of (index, output); the descriptor structs and enum SpendableOutputDescriptor are extracted from sign/mod.rs; the monitor is a six-field skeleton; scripts compare by identity; R8: `opt.as_ref() == Some(&x)` -> option_script_is (verified helper)
 //! trusted: R15 (deep slice): ChannelMonitorImpl::get_broadcasted_holder_claims: the body of the closure that turns an HTLC descriptor of our confirmed commitment into a claim package, verbatim as a function; PackageTemplate::build_package / HolderHTLCOutput::build record their arguments; the revokable-script triple and the descriptor list are dropped and not claimed
 //! trusted: R15 (deep slice): ChannelMonitorImpl::get_counterparty_output_claim_info: the per-HTLC block (preimage lookup, the decision to claim, the package built) verbatim as a function; the builders record their arguments; payment_preimages is a ghost-map stub; locating the to_remote output and the corrupt-data guard are dropped and not claimed
+//! trusted: OnchainTxHandler::provide_latest_holder_tx is extracted whole against a two-field skeleton (assume_specification for core::mem::replace: std definition)
 //! assume: every requested output carries at most MAX_MONEY (a valid TxOut): the loop sums them with bitcoin::Amount's `+=`, which panics on u64 overflow before the `>= input_value` test can refuse (observation O8 in DESIGN); at most 1_000_000 outputs
 //! assume: transaction weight and witness weight are at most 4_000_000 (consensus block weight limit): the function computes fees in i64 after `as i64` casts
 //! trusted: assume_specification for core::cmp::max / core::cmp::min (std definitions): present in every unit so that a change that introduces them is verified instead of being rejected by the tool
@@ -379,6 +380,25 @@ impl ChannelMonitorImpl {
     if preimage.is_some() || !htlc.offered {
 //@with
     if preimage.is_some() {
+//@end
+}
+}
+
+// ---- OnchainTxHandler::provide_latest_holder_tx: the commitment being replaced stays available as the previous one ---------
+pub mod holder_tx_rotation {
+use vstd::prelude::*;
+use core::mem::replace;
+pub assume_specification<T>[core::mem::replace::<T>](dest: &mut T, src: T) -> (r: T) ensures r == *old(dest), *final(dest) == src;
+pub struct HolderCommitmentTransaction { pub id: u64 }
+pub struct OnchainTxHandler { pub holder_commitment: HolderCommitmentTransaction, pub prev_holder_commitment: Option<HolderCommitmentTransaction> }
+impl OnchainTxHandler {
+//@extract lightning/src/chain/onchaintx.rs :: impl OnchainTxHandler :: fn provide_latest_holder_tx
+//@ensures P C07,C05 a-new-holder-commitment-becomes-the-current-one-and-the-one-it-replaces-stays-available-as-the-previous-one
+    final(self).holder_commitment == tx, final(self).prev_holder_commitment == Some(old(self).holder_commitment),
+//@mutant previous_holder_commitment_forgotten
+    self.prev_holder_commitment = Some(replace(&mut self.holder_commitment, tx));
+//@with
+    self.prev_holder_commitment = None; self.holder_commitment = tx;
 //@end
 }
 }
